@@ -1,11 +1,11 @@
 CONSTANTS
-  NR = 2
+  NR = 1
   NC = 1
   NCmd = 2
   Hooks = TRUE
   Fixed = TRUE
   UseSched = TRUE
-  CondErr = FALSE
+  CondErr = TRUE
   Holds = {"waiting","before","cmd1","gate2","cmd2","after","done"}
 SPECIFICATION GSpec
 INVARIANTS NoPanic NoStartAfterCancel InterruptedReportsError Emit
